@@ -217,6 +217,7 @@ func runCase(bs base, cd caseDesc, out *shard.Out) {
 	fnow := R.Chain.Head.Time()
 	var bundles []types.BlockBundle
 	var forkBlocks []*types.Block
+	ineligibleTip := false
 	for i := 0; i < len(cd.Fork); i++ {
 		fnow += 23
 		if fnow < bs.now-100 {
@@ -224,6 +225,31 @@ func runCase(bs base, cd caseDesc, out *shard.Out) {
 		}
 		parent := R.Chain.Head.Hash()
 		forkTipParentOnline = map[int]bool{world.N1: R.App.ValidatorsCache.IsOnlineIdentity(world.A(world.N1)), world.P: R.App.ValidatorsCache.IsOnlineIdentity(world.A(world.P))}
+		last := i == len(cd.Fork)-1
+		if last && strings.HasPrefix(cd.Tamper, "tip-by-") && cd.Fork[i] != 'E' {
+			// the tip is proposed by somebody who may not propose: a key without identity, or a
+			// validated identity that is offline (N1 at the base). The reference replica refuses it.
+			key := world.X1
+			if cd.Tamper == "tip-by-offline-identity" {
+				key = world.N1
+				if R.App.ValidatorsCache.IsOnlineIdentity(world.A(world.N1)) {
+					return
+				}
+			}
+			Rx, err := world.OpenAs(bs.opts, replica.Snapshot(R.DB), fnow, key)
+			if err != nil {
+				panic(err)
+			}
+			blk := build(Rx, cd.Fork[i], fnow)
+			if err := R.Add(blk); err == nil {
+				fail("reference-accepts-ineligible-proposer", "the reference replica inserted a block proposed by "+world.ActorNames[key])
+				return
+			}
+			forkBlocks = append(forkBlocks, blk)
+			bundles = append(bundles, types.BlockBundle{Block: blk, Cert: mkCert(blk, parent, "valid")})
+			ineligibleTip = true
+			continue
+		}
 		blk := build(R, cd.Fork[i], fnow)
 		if err := R.Add(blk); err != nil {
 			out.Outcome("skip fork block: " + cls(err))
@@ -231,7 +257,6 @@ func runCase(bs base, cd caseDesc, out *shard.Out) {
 		}
 		forkBlocks = append(forkBlocks, blk)
 		shape := "nil"
-		last := i == len(cd.Fork)-1
 		if last {
 			shape = cd.Tip
 		} else if cd.Interior == "valid" || (cd.Interior == "where-required" && blk.Header.Flags().HasFlag(types.IdentityUpdate)) {
@@ -259,6 +284,9 @@ func runCase(bs base, cd caseDesc, out *shard.Out) {
 			bundles = append(bundles[:1], bundles[2:]...)
 			invalid = true
 		}
+	}
+	if ineligibleTip {
+		invalid = true
 	}
 	if cd.Tamper != "none" && !invalid {
 		return
@@ -483,6 +511,10 @@ func cases(thorough bool) []caseDesc {
 					}
 				}
 				out = append(out, caseDesc{depth, own, fork, "valid", "where-required", "root-of-first"})
+				if fork[len(fork)-1] != 'E' {
+					out = append(out, caseDesc{depth, own, fork, "valid", "where-required", "tip-by-non-identity"})
+					out = append(out, caseDesc{depth, own, fork, "valid", "where-required", "tip-by-offline-identity"})
+				}
 				if len(fork) >= 3 {
 					out = append(out, caseDesc{depth, own, fork, "valid", "where-required", "drop-middle"})
 				}
